@@ -2,6 +2,7 @@ SPECIFICATION Spec
 CONSTANTS
   Vals <- Sym2
   MinLen = 2
+  OnlyReversals = FALSE
   MaxLen = 6
 INVARIANT FindTurnsAgree
 INVARIANT FourPointIsDefinition
